@@ -62,7 +62,12 @@ def build(case):
         return M.enc_mge(pix, pal, case["rgb"], case["comp"], rng, case.get("preset", "random")), [], (320, 200), 0
     if fmt == "rat":
         pix = M.rand_pixels(rng, 320, 199, case.get("content", "runs"))
-        return M.enc_rat(pix, pal, rng, case.get("preset", "random"))[0], [], (320, 199), 0
+        data, esc = M.enc_rat(pix, pal, rng, case.get("preset", "random"))
+        if case.get("stretch") and len(data) > 22 and data[-3] == esc:
+            # the final run is longer than the picture needs (an encoder that rounds its last run up): still a picture
+            # of exactly 320x199
+            data = data[:-2] + bytes([255, data[-1]])
+        return data, [], (320, 199), 0
     if fmt == "cm3":
         two = case["two"]
         pix = M.rand_pixels(rng, 320, 384 if two else 192, case.get("content", "vrepeat"))
@@ -104,7 +109,7 @@ def run_case(case):
     fmt = case["fmt"]
     obs = {"counters": {"decodes": 1}, "viols": [], "sets": {"formats": [fmt]}}
     data, args, size, skip = build(case)
-    obs["key"] = "%s|%s|%s|%s|%s" % (fmt, size, " ".join(args), case.get("content"), case.get("preset"))
+    obs["key"] = "%s|%s|%s|%s|%s" % (fmt, size, " ".join(args), case.get("content"), str(case.get("preset")) + ("+stretch" if case.get("stretch") else ""))
     res = D.decode(fmt, data, args)
     cl = observe.classify(fmt, res)
     detail = {"case": case, "args": args, "input_bytes": len(data), "expected_size": size}
@@ -214,6 +219,8 @@ def cases(tier, seed):
             for rgb in (True, False):
                 yield c(fmt="mge", rgb=rgb, comp=True, content=content, preset=preset)
             yield c(fmt="rat", content=content, preset=preset)
+            if content in ("zero", "max", "bottomflat", "flatrows"):
+                yield c(fmt="rat", content=content, preset=preset, stretch=True)
             for vt in (0, 1, 3):
                 if not q or vt == (len(content) + len(preset)) % 3 or vt == 0:
                     yield c(fmt="vef", vt=vt, sq=True, content=content, preset=preset)
